@@ -22,3 +22,134 @@ THEOREMS = ["CKT.C08Wire.optimize_result_is_planW", "CKT.C08Wire.child_linkW", "
     # T07.2 (Props/C07Conn): wires connected through applied (uncut) gates never number more than W
     "trace_path", "path_trace", "path_all_inv", "trace_edges", "conn_same_root", "connected_wires_le_width"]]
 LEVEL_TEXT = ("bookkeeping, export and never-fails theorems for the executable model of the cut finder for every input and setting; at specification level (plans of apply / gate cut / wire cuts per gate, subcircuits = classes of wires joined by the gates that are not gate-cut) the returned state is proved to be a width-feasible plan with the reported overhead made of permitted kinds of cut only (C07.returned_cuts_feasible); the identification of that plan with the exported circuit after cut_wires/partitioning is by the export theorems and the correspondence run; model tied to the code by exact comparison")
+RULE = ("random circuits on 2-8 qubits with up to 10 instructions (two-qubit gates of every family, Move, one-qubit gates, partial and full "
+        "barriers, occasionally a three-qubit gate; fixed families with Delay instructions around the cut positions and with several quantum "
+        "registers), every width limit, all permitted-cut combinations, restricted and unrestricted search "
+        "settings, invalid settings; exact comparison (instruction list, metadata, overhead, flag) on integer-kappa circuits with the seeded "
+        "generator's stream replayed in the model; overhead/flag comparison otherwise; distinct by payload")
+ASSUMPTIONS = ["numpy Generator(seed).random() stream is read in Python and passed to the model (the model is a function of that stream)",
+               "kappa of each two-qubit gate is taken from QPDBasis.from_instruction (covered by C15) and passed to the model as an exact rational",
+               "heapq is modelled as a total-order priority queue (keys are unique through the sequence counter)",
+               "float products of integer kappas are exact; for non-integer kappas only tie-break-independent observables are compared"]
+
+
+def _deep_merge_and_barrier_cases():
+    """(a) eight to ten qubits merged hierarchically (pairs, pairs of pairs, ...) so that the search state's up-tree gets three or more levels
+    before a further gate touches a deep wire — wide limits (nothing to cut) and limits that force cuts; (b) a full-width barrier at or after
+    the gate whose input wire is cut (wire-cut plans), next to controls with the barrier in front of the cut or a gate-cut plan"""
+    g, f = cutfind._g, cutfind._fam
+    tree8 = [g("cx", 0, 1), g("cx", 2, 3), g("cx", 4, 5), g("cx", 6, 7), g("cx", 4, 6), g("cx", 0, 2), g("cx", 0, 4), g("cx", 7, 3), g("h", 7)]
+    out = [f(8, tree8, 8), f(8, tree8, 10, seed=3), f(8, tree8, 6, seed=1), f(8, tree8, 4, seed=2, glo=False), f(8, tree8, 4, seed=2, wlo=False)]
+    tree10 = [g("cx", 8, 9), g("cx", 0, 1), g("cx", 2, 3), g("cx", 0, 2), g("cx", 4, 5), g("cx", 6, 7), g("cx", 4, 6), g("cx", 0, 4),
+              g("cx", 7, 8), g("cz", 9, 3), g("cx", 5, 1)]
+    out += [f(10, tree10, 10), f(10, tree10, 8, seed=5), f(10, tree10, 5, seed=6, mb=200)]
+    rev = [g("cx", 7, 6), g("cx", 5, 4), g("cx", 3, 2), g("cx", 1, 0), g("cx", 3, 1), g("cx", 7, 5), g("cx", 7, 3), g("cx", 0, 4), g("x", 0)]
+    out += [f(8, rev, 8, seed=7), f(8, rev, 9, seed=8, glo=False)]
+    bar = lambda n: g("barrier", *range(n))
+    star = [g("cx", 0, 3), g("cx", 1, 3), g("cx", 2, 3)]
+    out += [f(5, star + [bar(5), g("h", 4), g("cx", 3, 4)], 3, seed=1), f(5, star + [bar(5), g("h", 4), g("cx", 3, 4)], 3, seed=1, glo=False),
+            f(5, star + [g("h", 4), g("cx", 3, 4), bar(5), g("x", 0)], 3, seed=2, glo=False),
+            f(5, [bar(5)] + star + [g("h", 4), g("cx", 3, 4)], 3, seed=3, glo=False),           # control: barrier in front of everything
+            f(5, star + [bar(5), g("h", 4), g("cx", 3, 4)], 3, seed=4, wlo=False),              # control: gate-cut plan
+            f(4, [g("swap", 0, 1), g("cx", 1, 2), bar(4), g("swap", 2, 3), bar(4), g("cx", 0, 3)], 2, seed=5),
+            f(4, [g("cx", 0, 1), g("cx", 2, 3), bar(4), g("cx", 1, 2), g("cx", 0, 1), bar(4), g("cx", 2, 3)], 2, seed=6, glo=False)]
+    return out
+
+
+def _mixed_order_cases():
+    """Mixed plans in which a wire cut lies in front of (in instruction order) a gate cut: two bound pairs, a swap-like gate across them (kappa 7 > 4:
+    the wire cut is the cheaper separation), then a cx-like gate across the boundary; also the reverse order and two wire cuts before the gate cut."""
+    out = []
+    bound = [("cx", 0, 1), ("cx", 0, 1), ("cx", 2, 3), ("cx", 2, 3)]
+    progs = [bound + [(big, 1, 2), (small, 0, 3)] for big in ("swap", "iswap", "dcx") for small in ("cx", "cz")]
+    progs += [bound + [("cx", 0, 3), ("swap", 1, 2)], bound + [("swap", 1, 2), ("h", 1), ("swap", 1, 2), ("cx", 0, 3)],
+              bound + [("swap", 2, 1), ("cx", 3, 0), ("cx", 0, 1)]]
+    for k, prog in enumerate(progs):
+        instrs = [{"name": nm, "qubits": list(qs)} for nm, *qs in prog]
+        for bj in (None, 0):
+            out.append({"nq": 4, "instrs": instrs, "seed": 3 + k, "max_gamma": 1024.0, "max_backjumps": bj, "gate_lo": True, "wire_lo": True,
+                        "width": 3, "exact": True, "always_oracle": True})
+    return out
+
+
+def cases(rng, tier):
+    for p in _deep_merge_and_barrier_cases() + _mixed_order_cases():
+        yield ("find_cuts", p)
+    N = 150 if tier == "quick" else 2500
+    # deterministic families (independent of the seed, oracle always run): Delay instructions before / in front of / after the cut positions
+    # (reported positions are positions in the input circuit, delays included), and qubits spread over several quantum registers
+    for p in cutfind.family_delays() + cutfind.family_registers():
+        yield ("find_cuts", p)
+    # gamma limits that admit fewer cuts than the circuit needs (wire-only, gate-only, both kinds; several backjump limits): the greedy answer is the
+    # guaranteed fallback, so a feasible request must still be answered
+    for p in cutfind.family_tight_gamma():
+        yield ("find_cuts", p)
+    # circuits in which nothing (or only full-width barriers) happens: trivially feasible, nothing to cut
+    for nq, instrs in ((3, []), (4, [{"name": "barrier", "qubits": [0, 1, 2, 3]}]), (1, []), (2, [{"name": "barrier", "qubits": [0, 1]}] * 2)):
+        yield ("find_cuts", {"nq": nq, "instrs": [dict(i) for i in instrs], "seed": rng.randrange(1 << 30), "max_gamma": 1024.0, "max_backjumps": 10000,
+                             "gate_lo": True, "wire_lo": rng.random() < 0.5, "width": rng.choice([1, 2]), "exact": True, "always_oracle": True})
+    # wire cuts only, width 2: the optimum cuts both wires of a gate whose qubits already share a subcircuit, and a later gate needs a cut
+    for _ in range(2 if tier == "quick" else 12):
+        perm = list(range(4))
+        rng.shuffle(perm)
+        pairs = [(0, 1), (2, 3), (0, 1), (1, 2), (0, 1)]
+        if rng.random() < 0.5:
+            pairs.append(rng.choice([(2, 3), (1, 2)]))
+        yield ("find_cuts", {"nq": 4, "instrs": [{"name": "cx", "qubits": [perm[a], perm[b]]} for a, b in pairs], "seed": rng.randrange(1 << 30),
+                             "max_gamma": 1e6, "max_backjumps": None, "gate_lo": False, "wire_lo": True, "width": 2, "exact": True,
+                             "always_oracle": True})
+    for _ in range(N):
+        yield ("find_cuts", cutfind.gen_case(rng, tier))
+    # every registered two-qubit family once as the gate that has to be cut (its own overhead is then the reported one)
+    from .. import gen as _gen
+    for fam in _gen.FIXED_2Q + _gen.PARAM_2Q:
+        yield ("find_cuts", cutfind.gen_bridge(rng, tier, fam=fam))
+
+
+def model_line(kind, payload):
+    return cutfind.model_line(payload)
+
+
+def run_real(kind, payload):
+    return cutfind.run_real(payload)
+
+
+def model_canon(kind, payload, out):
+    return cutfind.model_canon(out)
+
+
+def compare(kind, payload, real, model):
+    return cutfind.compare(payload, real, model)
+
+
+def describe(kind, payload):
+    return cutfind.describe(payload)
+
+
+def nontrivial_key(kind, payload):
+    return hash(json.dumps({k: v for k, v in payload.items() if not k.startswith("_")}, sort_keys=True, default=str))
+
+
+def oracle(kind, payload):
+    real = call_real(lambda p: cutfind.run_real(p), payload, timeout=300)
+    bad_settings = payload["width"] < 1 or payload["max_gamma"] < 1 or (payload["max_backjumps"] is not None and payload["max_backjumps"] < 0)
+    gs = cutfind.gammas(payload)
+    gates = cutfind.two_qubit_gates(payload)
+    big = any(len(g["qubits"]) > 2 for _, g in gates)
+    if "error" in real:
+        if real["error"] != "ValueError":
+            return f"find_cuts raised {real['error']}"
+        if bad_settings or big or "error" in gs:
+            return None
+        best, plan = cutfind.brute_force(payload, gs)
+        if best == "skip" or best is None:
+            return None
+        # two-qubit non-Gate instructions have no gamma: the greedy pass may dead-end although a plan exists (outside the property's quantifier)
+        if any(gs[k] is None for k, _ in gates):
+            return None
+        return f"find_cuts refused although the plan {plan} (gamma {best}) meets the width limit {payload['width']}"
+    if bad_settings:
+        return "invalid settings were accepted"
+    if big:
+        return "a gate on more than two qubits was accepted by the search"
+    return cutfind.analyse_output(payload, real["ok"], gs)
